@@ -289,7 +289,10 @@ type PathElementMatcher struct {
 }
 
 func (p PathElementMatcher) Equals(p2 PathElementMatcher) bool {
-	return p.Wildcard != p2.Wildcard && p.PathElement.Equals(p2.PathElement)
+	if p.Wildcard || p2.Wildcard {
+		return p.Wildcard == p2.Wildcard
+	}
+	return p.PathElement.Equals(p2.PathElement)
 }
 
 func (p PathElementMatcher) Less(p2 PathElementMatcher) bool {
@@ -302,7 +305,9 @@ func (p PathElementMatcher) Less(p2 PathElementMatcher) bool {
 }
 
 func (p PathElementMatcher) Compare(p2 PathElementMatcher) int {
-	if p.Wildcard && !p2.Wildcard {
+	if p.Wildcard && p2.Wildcard {
+		return 0
+	} else if p.Wildcard {
 		return -1
 	} else if p2.Wildcard {
 		return 1
